@@ -302,27 +302,29 @@ pub fn len_const_id(id: usize, v: u64) -> R<usize> {
 
 /// A factory handing out readers over a shared word buffer (the client-side piece the
 /// FactoryFuncCodeReader mechanism needs).
-pub struct MemFactory<E: Endianness> {
-    pub data: Vec<u32>,
+pub struct MemFactory<E: Endianness, W = u32> {
+    pub data: Vec<W>,
     _e: std::marker::PhantomData<E>,
 }
-impl<E: Endianness> MemFactory<E> {
-    pub fn new(data: Vec<u32>) -> Self {
+impl<E: Endianness, W> MemFactory<E, W> {
+    pub fn new(data: Vec<W>) -> Self {
         MemFactory { data, _e: std::marker::PhantomData }
     }
 }
-impl CodesReaderFactory<BE> for MemFactory<BE> {
-    type CodesReader<'a> = BufBitReader<BE, MemWordReader<u32, &'a [u32], false>> where Self: 'a;
-    fn new_reader(&self) -> Self::CodesReader<'_> {
-        BufBitReader::<BE, _>::new(MemWordReader::new_strict(&self.data[..]))
-    }
+macro_rules! impl_factory {
+    ($E:ty, $W:ty) => {
+        impl CodesReaderFactory<$E> for MemFactory<$E, $W> {
+            type CodesReader<'a> = BufBitReader<$E, MemWordReader<$W, &'a [$W], false>> where Self: 'a;
+            fn new_reader(&self) -> Self::CodesReader<'_> {
+                BufBitReader::<$E, _>::new(MemWordReader::new_strict(&self.data[..]))
+            }
+        }
+    };
 }
-impl CodesReaderFactory<LE> for MemFactory<LE> {
-    type CodesReader<'a> = BufBitReader<LE, MemWordReader<u32, &'a [u32], false>> where Self: 'a;
-    fn new_reader(&self) -> Self::CodesReader<'_> {
-        BufBitReader::<LE, _>::new(MemWordReader::new_strict(&self.data[..]))
-    }
-}
+impl_factory!(BE, u32);
+impl_factory!(LE, u32);
+impl_factory!(BE, u8);
+impl_factory!(LE, u8);
 
 pub struct ReadObs {
     pub value: u64,
@@ -331,12 +333,12 @@ pub struct ReadObs {
 }
 
 macro_rules! impl_dispatch {
-    ($modname:ident, $E:ty) => {
+    ($modname:ident, $E:ty, $RW:ty) => {
         pub mod $modname {
             use super::*;
             pub type DW = BufBitWriter<$E, MemWordWriterVec<u64, Vec<u64>>>;
             // strict backend: a dispatcher that reads garbage ends with an error instead of looping on zeros
-            pub type DR<'a> = BufBitReader<$E, MemWordReader<u32, &'a [u32], false>>;
+            pub type DR<'a> = BufBitReader<$E, MemWordReader<$RW, &'a [$RW], false>>;
 
             /// write `pre` bits of 0b101.., then v through the dispatcher, then a 9-bit sentinel
             pub fn write(how: Disp, code: Code, id: Option<usize>, pre: usize, v: u64) -> R<(Vec<u8>, usize)> {
@@ -386,12 +388,12 @@ macro_rules! impl_dispatch {
             /// skip `pre` bits, read through the dispatcher, report value, position and the next 9 bits
             pub fn read(how: Disp, code: Code, id: Option<usize>, pre: usize, bytes: &[u8]) -> R<ReadObs> {
                 let mut b = bytes.to_vec();
-                while b.len() % 4 != 0 {
+                while b.len() % std::mem::size_of::<$RW>() != 0 {
                     b.push(0);
                 }
-                let words: Vec<u32> = crate::adapters::words_of::<u32>(&b);
+                let words: Vec<$RW> = crate::adapters::words_of::<$RW>(&b);
                 let codes = to_codes(code);
-                let fac = MemFactory::<$E>::new(words.clone());
+                let fac = MemFactory::<$E, $RW>::new(words.clone());
                 let mut r: DR = BufBitReader::new(MemWordReader::new_strict(&words[..]));
                 r.skip_bits(pre).map_err(es)?;
                 let value = match how {
@@ -408,7 +410,7 @@ macro_rules! impl_dispatch {
                         }
                     }
                     Disp::Factory => {
-                        let ff = FactoryFuncCodeReader::<$E, MemFactory<$E>>::new(codes.ok_or("no enum variant")?).map_err(|e| format!("unsupported: {}", e))?;
+                        let ff = FactoryFuncCodeReader::<$E, MemFactory<$E, $RW>>::new(codes.ok_or("no enum variant")?).map_err(|e| format!("unsupported: {}", e))?;
                         // the reader handed out by the factory, positioned like `r`
                         let mut fr = fac.new_reader();
                         fr.skip_bits(pre).map_err(es)?;
@@ -445,8 +447,12 @@ macro_rules! impl_dispatch {
         }
     };
 }
-impl_dispatch!(be, BE);
-impl_dispatch!(le, LE);
+impl_dispatch!(be, BE, u32);
+impl_dispatch!(le, LE, u32);
+// the same dispatchers over a reader with 8-bit words (outside the domain of every decoding table, D7: used only
+// for codes whose own parameterless method consults no table)
+impl_dispatch!(be8, BE, u8);
+impl_dispatch!(le8, LE, u8);
 
 pub fn d_write(e: En, how: Disp, code: Code, id: Option<usize>, pre: usize, v: u64) -> R<(Vec<u8>, usize)> {
     match e {
@@ -458,6 +464,13 @@ pub fn d_read(e: En, how: Disp, code: Code, id: Option<usize>, pre: usize, bytes
     match e {
         En::BE => be::read(how, code, id, pre, bytes),
         En::LE => le::read(how, code, id, pre, bytes),
+    }
+}
+
+pub fn d_read8(e: En, how: Disp, code: Code, id: Option<usize>, pre: usize, bytes: &[u8]) -> R<ReadObs> {
+    match e {
+        En::BE => be8::read(how, code, id, pre, bytes),
+        En::LE => le8::read(how, code, id, pre, bytes),
     }
 }
 
